@@ -181,3 +181,64 @@ Theorem C07_server_completions_in_every_reachable_world :
       sd_key d = sl_session_key (sv_state s).
 Proof. exact @server_completions. Qed.
 Print Assumptions C07_server_completions_in_every_reachable_world.
+
+
+(* ---------------------------------------------------------------- at the 20 concrete suites
+   The theorems above that assume GroupLaws, restated for each of the 20 suites with CurveLaws as the only hypothesis
+   (HashLaws, CodecLaws, SizeLaws and the encoding half of GroupLaws are proved for them: Theory/GroupSplit.v). *)
+From OKE Require Import CodecsConcrete GroupSplit Concrete20.
+
+Definition C07_matched_session_agrees_statement {E Sc Pk Sk} (CS : Suite E Sc Pk Sk) : Prop :=
+  forall tape req l2 cnonce ce cs ss u s ctx st ke2 rest dbg,
+    vk CS ce -> vk CS cs -> vk CS ss ->
+    generate_ke2 CS (private_key_ops (ke CS)) tape req l2
+                 {| k1_nonce := cnonce; k1_client_e_pk := k_pub (ke CS) ce |} (k_pub (ke CS) cs) ss u s ctx
+      = Ok (st, ke2, rest, dbg) ->
+    exists dbg',
+      generate_ke3 CS l2 ke2 {| k1s_client_e_sk := ce; k1s_nonce := cnonce |} req (k_pub (ke CS) ss) cs u s ctx
+        = Ok (sl_session_key st, {| cf_mac := h_hmac (hash CS) (sl_km3 st) (sl_hashed_transcript st) |}, dbg') /\
+      server_login_finish CS st {| cf_mac := h_hmac (hash CS) (sl_km3 st) (sl_hashed_transcript st) |}
+        = Ok (sl_session_key st).
+Theorem C07_matched_session_agrees_at_each_of_the_20_suites : all_suites (fun _ _ _ _ CS => CurveLaws CS -> C07_matched_session_agrees_statement CS).
+Proof. apply at_the_20_suites_g. exact C07_matched_session_agrees. Qed.
+Print Assumptions C07_matched_session_agrees_at_each_of_the_20_suites.
+
+Definition C07_accepted_response_is_that_sessions_statement {E Sc Pk Sk} (CS : Suite E Sc Pk Sk) : Prop :=
+  forall tape (setup : ServerSetup Pk Sk Sk) file rq cred ctx_s ids_s slog resp rest dbg
+         clog pw r' ctx_c ids_c ksf fin sk ek spk dbgc,
+    server_login_start CS (private_key_ops (ke CS)) tape setup (Some file) rq cred ctx_s ids_s = Ok (slog, resp, rest, dbg) ->
+    client_login_finish CS clog pw r' ctx_c ids_c ksf = Ok (fin, sk, ek, spk, dbgc) ->
+    k2_mac (cr_ke2 r') = k2_mac (cr_ke2 resp) ->
+    length (client_request_bytes CS clog) = length (server_request_bytes CS rq) ->
+    length (client_l2 CS r') = length (client_l2 CS resp) ->
+    length (k2_nonce (cr_ke2 r')) = length (k2_nonce (cr_ke2 resp)) ->
+    (client_request_bytes CS clog = server_request_bytes CS rq /\
+     client_l2 CS r' = client_l2 CS resp /\
+     k2_nonce (cr_ke2 r') = k2_nonce (cr_ke2 resp) /\
+     k_ser_pk (ke CS) (k2_server_e_pk (cr_ke2 r')) = k_ser_pk (ke CS) (k2_server_e_pk (cr_ke2 resp)) /\
+     match ctx_c with Some c => c | None => nil end = match ctx_s with Some c => c | None => nil end /\
+     sk = sl_session_key slog)
+    \/ Bad (hash CS).
+Theorem C07_accepted_response_is_that_sessions_at_each_of_the_20_suites : all_suites (fun _ _ _ _ CS => CurveLaws CS -> C07_accepted_response_is_that_sessions_statement CS).
+Proof. apply at_the_20_suites. exact C07_accepted_response_is_that_sessions. Qed.
+Print Assumptions C07_accepted_response_is_that_sessions_at_each_of_the_20_suites.
+
+Definition C07_matched_conversations_in_every_reachable_world_statement {E Sc Pk Sk} (CS : Suite E Sc Pk Sk) : Prop :=
+  forall setup tape ops d s f,
+    let w := run CS (@init E Sc Pk Sk setup tape) ops in
+    In d (w_cdone w) -> In s (w_srv w) -> sv_file s = Some f ->
+    k2_mac (cr_ke2 (cd_resp d)) = k2_mac (cr_ke2 (sv_resp s)) ->
+    forall c, nth_error (w_cli w) (cd_client d) = Some c ->
+    length (client_request_bytes CS (cs_state c)) = length (server_request_bytes CS (sv_rq s)) ->
+    length (client_l2 CS (cd_resp d)) = length (client_l2 CS (sv_resp s)) ->
+    length (k2_nonce (cr_ke2 (cd_resp d))) = length (k2_nonce (cr_ke2 (sv_resp s))) ->
+    (client_request_bytes CS (cs_state c) = server_request_bytes CS (sv_rq s) /\
+     client_l2 CS (cd_resp d) = client_l2 CS (sv_resp s) /\
+     k2_nonce (cr_ke2 (cd_resp d)) = k2_nonce (cr_ke2 (sv_resp s)) /\
+     k_ser_pk (ke CS) (k2_server_e_pk (cr_ke2 (cd_resp d))) = k_ser_pk (ke CS) (k2_server_e_pk (cr_ke2 (sv_resp s))) /\
+     match cd_ctx d with Some x => x | None => nil end = match sv_ctx s with Some x => x | None => nil end /\
+     cd_key d = sl_session_key (sv_state s))
+    \/ Bad (hash CS).
+Theorem C07_matched_conversations_in_every_reachable_world_at_each_of_the_20_suites : all_suites (fun _ _ _ _ CS => CurveLaws CS -> C07_matched_conversations_in_every_reachable_world_statement CS).
+Proof. apply at_the_20_suites. exact C07_matched_conversations_in_every_reachable_world. Qed.
+Print Assumptions C07_matched_conversations_in_every_reachable_world_at_each_of_the_20_suites.
